@@ -115,10 +115,11 @@ template <class T> static void check_value(pbt::Ctx& c, const char* fn, const Mo
 template <class T> static void check_mono(pbt::Ctx& c, const char* fn, const Mode& m, bool fwd, T xa, T ya, T xb, T yb) {
 	if (!(xa < xb)) { if (xa == xb) return; std::swap(xa, xb); std::swap(ya, yb); }
 	T thr = fwd ? (T)0.0031308 : (T)0.04045;
-	bool lo_a = fwd ? (xa < thr) : (xa <= thr), lo_b = fwd ? (xb < thr) : (xb <= thr);
-	const char* cls = (lo_a && lo_b) ? "linear" : (!lo_a && !lo_b) ? "curve" : "across-threshold";
+	// the rounded threshold itself may belong to either segment (x == T(thr) is within rounding of the real threshold)
+	bool across = xa <= thr && xb >= thr;
+	const char* cls = across ? "across-threshold" : (xb < thr ? "linear" : "curve");
 	LD allow = 0;
-	if (lo_a != lo_b) { allow = fwd ? 8 * rc::IEC_JUMP : 0; allow += 8 * eps<T>() * (LD)(ya < 0 ? -ya : ya); c.cls("mono-pair-across-threshold"); }
+	if (across) { allow = fwd ? 8 * rc::IEC_JUMP : 0; allow += 8 * eps<T>() * (LD)(ya < 0 ? -ya : ya); c.cls("mono-pair-across-threshold"); }
 	if ((LD)yb < (LD)ya - allow || is_nan(ya) || is_nan(yb))
 		c.failk(std::string(fn) + (m.gamma ? "(gamma)/" : "/") + TN<T>::name() + "/monotone/" + cls + "/" + m.gcls,
 		        "%s is not monotone: f(%.9g) = %.9g > f(%.9g) = %.9g", fn, (double)xa, (double)ya, (double)xb, (double)yb);
